@@ -140,3 +140,28 @@ func (s *Spec) Hash() uint64 {
 	h.Write([]byte(s.JSON()))
 	return h.Sum64()
 }
+
+// Slots returns a pointer to every *Spec slot of the tree rooted at
+// *root, in pre-order (the root slot first).
+func Slots(root **Spec) []**Spec {
+	var out []**Spec
+	var rec func(slot **Spec)
+	rec = func(slot **Spec) {
+		if *slot == nil {
+			return
+		}
+		out = append(out, slot)
+		s := *slot
+		if s.C != nil {
+			rec(&s.C)
+		}
+		for i := range s.X {
+			rec(&s.X[i])
+		}
+	}
+	rec(root)
+	return out
+}
+
+// IsLeafSpec tells whether the node has no sub-errors.
+func (s *Spec) IsLeafSpec() bool { return s.C == nil && len(s.X) == 0 }
